@@ -19,7 +19,7 @@ ASSUMPTIONS = ['text is XML-legal Unicode (lxml refuses control characters)', 'p
                'where the original has no heights (import guesses them) or no index (export writes the position) only the fixpoint and the remaining fields are required']
 N = {'quick': 1200, 'thorough': 40000}
 CLASSES = ['mixed', 'mixed', 'reading_order_full', 'reading_order_partial', 'text_classes', 'coord_classes', 'empty_page', 'many_regions']
-REQUIRED = ['roundtrips', 'fixpoints', 'regions_compared', 'lines_compared', 'reading_order_pages', 'reading_order_nonidentity', 'file_variant', 'bytesio_variant']
+REQUIRED = ['reloads_after_edit', 'roundtrips', 'fixpoints', 'regions_compared', 'lines_compared', 'reading_order_pages', 'reading_order_nonidentity', 'file_variant', 'bytesio_variant']
 SHARDS = {'quick': 4, 'thorough': 16}
 
 TEXTS = [None, '', ' ', '   ', ' lead', 'trail ', '  both  ', 'a<b>&amp;"\'c', ']]>', '<![CDATA[x]]>', 'é combining ạ̈', 'שלום עולם',
@@ -222,3 +222,19 @@ def check(case, mon, ctx):
             e_conf = None if l['conf'] is None else float('%.3f' % l['conf'])
             if gl.transcription_confidence != e_conf:
                 mon.violation('line-confidence', dict(w, got=gl.transcription_confidence, expected=e_conf))
+    # history in one process: edit the first loaded layout's arrays in place, then load the same document again -> must be the document again
+    try:
+        for r in l1.regions:
+            r.polygon += 7
+            for l in r.lines:
+                l.polygon += 7
+                l.baseline -= 3
+        l1b = load(L, x1, case['variant'], ctx, mon)
+        x2b = l1b.to_pagexml_string(version=ver)
+        mon.count('reloads_after_edit')
+        if strip_ts(x2b) != strip_ts(x2):
+            d = next((k for k, (a, b) in enumerate(zip(strip_ts(x2b), strip_ts(x2))) if a != b), min(len(x2b), len(x2)))
+            mon.violation('loading-yields-the-same-page', {'note': 'a second load of the same document, after the first loaded layout was edited in place, gives a different page',
+                          'at': d, 'second_load': strip_ts(x2b)[max(0, d - 80):d + 80], 'first_load': strip_ts(x2)[max(0, d - 80):d + 80]})
+    except Exception as e:
+        mon.violation('roundtrip-raises', {'exception': repr(e)[:300], 'step': 'reload after in-place edit'})
